@@ -10,7 +10,12 @@ import (
 
 func main() {
 	tier := flag.String("tier", "", "quick|thorough")
+	slotsChild := flag.String("slots-child", "", "internal: run the slot sequences of one configuration (JSON) and print results")
+	maxLen := flag.Int("maxlen", 5, "internal: sequence length for -slots-child")
 	flag.Parse()
+	if *slotsChild != "" {
+		runSlotsChild(*slotsChild, *maxLen)
+	}
 	r := ev.New("C18", *tier, "model_checking")
 	r.SetBudget(10 * time.Minute)
 	if r.Thorough() {
@@ -18,7 +23,10 @@ func main() {
 	}
 	r.Rule = "threadgroup: every schedule (scheduling point before each Lock/Unlock/WaitGroup op of the real threadgroup.go, re-pointed at the scheduler-aware sync shim) of k workers {Add|AddContext; work; done} and s stoppers {Stop; Add} with at most B preemptions; distinct = distinct (admitted,rejected) outcome vectors per scenario"
 	runThreadgroup(r)
-	r.Explanation = "threadgroup part: iterative preemption bounding over the real ThreadGroup; see samples for per-scenario bounds."
+	runSyncerLimits(r)
+	runPeerCapsAll(r)
+	r.Rule += "; syncer-slots: every maximal sequence of environment events {send(peer,rpc), release(peer,rpc), close} of the stated length per limit configuration (per-peer L, per-subnet M, peers per subnet), run step by step against a real syncer.Syncer whose RPCSendHeaders handlers park at a gate in the ChainManager, compared after every event with a reference model (which handlers must have started, which requests must have been dropped, which answered), exact high-water marks per peer and per subnet, Close must return with zero handlers running and Run must return; syncer-peercaps: every maximal sequence of {connect(i), handshake(i), drop(i), closeBegin, closeEnd} (listener Close latency decided by the environment) against a real Syncer: inbound peers <= MaxInboundPeers after every event, admission without contention, slots returned, Close/Run return, no peer or open connection left"
+	r.Explanation = "threadgroup part: iterative preemption bounding over the real ThreadGroup (see samples for per-scenario bounds); syncer parts: all event sequences up to the bound, each replayed on a fresh Syncer over an in-memory network, quiescence after each event observed at the connections/gate (no sleeps except a 20 ms settle after an empty teardown sweep). Configurations with a non-positive per-peer limit run in a child process so that a crash is reported as a violation."
 	r.Assumptions = append(r.Assumptions, "lock-granular interleavings only (memory-model effects are left to the separate -race pass)", "Go runtime, go.sia.tech/core trusted")
 	r.Finish()
 }
